@@ -1075,7 +1075,9 @@ fn cmd_rm(args: &[String]) -> i32 {
     for f in ops {
         match sfs::symlink_metadata(&f) {
             Err(e) => {
-                if !(force && e.kind() == std::io::ErrorKind::NotFound) {
+                // GNU rm -f ignores nonexistent operands, which includes ENOTDIR (a path
+                // component is a regular file) — calibrated against the real tool
+                if !(force && (e.kind() == std::io::ErrorKind::NotFound || e.raw_os_error() == Some(20))) {
                     eprint_proc(&format!("rm: cannot remove '{f}': {}\n", os_msg(&e)));
                     status = 1;
                 }
